@@ -324,6 +324,26 @@ def handle (toks : List String) : String :=
         | _, _ => bad)
       | _ => bad)
     | none => bad
+  | "rng" :: rest =>
+    match parseParams rest with
+    | some (p, rest) =>
+      (match parseLoc rest with
+      | some (loc, [s, e]) =>
+        (match s.toInt?, e.toInt? with
+        | some s, some e =>
+          -- prayer_times_dt_rng: the dates of the range in order, each the single-date result
+          let days := (rangeDates s e).map fun rd => (rd, prayerTimesDt p loc rd none)
+          (match days.find? (fun x => match x.2 with | .error _ => true | .ok _ => false) with
+          | some (_, .error e) => showPanic e
+          | _ =>
+            let parts := days.filterMap fun (rd, r) => match r with
+              | .ok d => some (toString rd ++ " " ++ " ".intercalate [showPT d.imsaak, showPT d.fajr, showPT d.shur,
+                  showPT d.dhuhr, showPT d.asr, showPT d.magh, showPT d.isha])
+              | .error _ => none
+            toString parts.length ++ " " ++ " | ".intercalate parts)
+        | _, _ => bad)
+      | _ => bad)
+    | none => bad
   | ["hijri", rd] =>
     match rd.toInt? with
     | some n =>
